@@ -315,3 +315,30 @@ def trace_check(chk, spec_tla, cfg, summary, classify=None, label="trace"):
         {"scenario": summary.get("scenario"), "runs": len(summary["runs"]), "events": total_lines,
          "files": len(files)})
     return results
+
+
+def tlc_tables(module, cfg=None, timeout=600):
+    """Run a table-emitting module (ASSUME PrintT(<<"TABLE", name, ToJson(rows)>>)); returns
+    {name: rows} and the raw run result."""
+    meta = os.path.join(WORK, "tb_" + module.replace(".tla", ""))
+    shutil.rmtree(meta, ignore_errors=True)
+    cmd = ["tlc", "-metadir", meta, "-cleanup", "-noGenerateSpecTE"]
+    if cfg:
+        cmd += ["-config", os.path.join(SPEC, cfg)]
+    cmd.append(os.path.join(SPEC, module))
+    rc, out = sh(cmd, timeout=timeout, cwd=SPEC)
+    shutil.rmtree(meta, ignore_errors=True)
+    if rc != 0 or "No error has been found" not in out:
+        raise ToolError(f"table module {module} failed: " + out[-1500:])
+    tables = {}
+    flat = out.replace("\n", " ")
+    for m in re.finditer(r'<<\s*"TABLE",\s*"(\w+)",\s*"((?:[^"\\]|\\.)*)"\s*>>', flat):
+        tables[m.group(1)] = json.loads(json.loads('"' + m.group(2) + '"'))
+    return tables
+
+
+def write_json(path, obj):
+    os.makedirs(os.path.dirname(path), exist_ok=True)
+    with open(path, "w") as f:
+        json.dump(obj, f)
+    return path
